@@ -166,7 +166,7 @@ func checkC04(t *testing.T, job *Job, res *Result) {
 	u := c04Universe(tier, false)
 	step := 1
 	if tier == "quick" {
-		step = 3 // quick: every third service of the universe as first member (the full product is the thorough tier)
+		step = 5 // quick: every fifth service of the universe as first member (the full product is the thorough tier)
 	}
 	for i := 0; i < len(u); i += step {
 		for j := i + 1; j < len(u); j++ {
@@ -179,7 +179,7 @@ func checkC04(t *testing.T, job *Job, res *Result) {
 	u3 := c04Universe(tier, true)
 	step3 := 1
 	if tier == "quick" {
-		step3 = 4
+		step3 = 5
 	}
 	for i := 0; i < len(u3); i += step3 {
 		for j := i + 1; j < len(u3); j++ {
@@ -204,6 +204,6 @@ func checkC04(t *testing.T, job *Job, res *Result) {
 	g.States = len(g.DistinctKeys)
 	res.Bounds = "all conflict-free tables of 2 services over an 11x10 binding universe and of 3 services over a 6x6 universe; every deploy order"
 	if tier == "quick" {
-		res.Bounds += " (quick tier: first member restricted to every 3rd / 4th element of the universe)"
+		res.Bounds += " (quick tier: first member restricted to every 5th element of the universe)"
 	}
 }
